@@ -275,7 +275,9 @@ impl Property for C02 {
             2 => Some("-H".to_string()),
             _ => Some("-L".to_string()),
         };
-        let follow_in_expr = follow_flag.is_none() && rng.chance(1, 6);
+        // -follow in the expression, also behind -P or -H on the command line: from there on
+        // links are followed as under -L, whatever the flag said
+        let follow_in_expr = rng.chance(1, 6);
         let mut mindepth = if rng.chance(1, 2) { Some(rng.urange(0, 5)) } else { None };
         let mut maxdepth = if rng.chance(1, 2) { Some(rng.urange(0, 5)) } else { None };
         // bounds far beyond any tree: everything (as -maxdepth) or nothing (as -mindepth)
